@@ -48,6 +48,11 @@ def jdefault(o):
     return repr(o)
 
 
+def _call_chunk(args):
+    fn, items = args
+    return [_call((fn, i)) for i in items]
+
+
 def _call(args):
     fn, item = args
     try:
@@ -135,19 +140,22 @@ class Ctx:
         ctx = mp.get_context("fork")
         pool = ctx.Pool(min(self.workers, len(items)))
         try:
-            it = pool.imap(_call, [(fn, i) for i in items], chunksize)
+            chunksize = max(1, int(chunksize))
+            chunks = [(fn, items[i:i + chunksize]) for i in range(0, len(items), chunksize)]
+            it = pool.imap(_call_chunk, chunks, 1)
             while True:
                 left = self.left()
                 if left <= 0:
                     raise mp.TimeoutError
                 try:
-                    r = it.next(timeout=max(left, 0.01))
+                    rs = it.next(timeout=max(left, 0.01))
                 except StopIteration:
                     break
-                self.items_done += 1
-                if absorb:
-                    self.absorb(r)
-                out.append(r)
+                for r in rs:
+                    self.items_done += 1
+                    if absorb:
+                        self.absorb(r)
+                    out.append(r)
         except mp.TimeoutError:
             self.capped = True
             self.cap_note.append(f"budget {self.budget}s hit after {self.items_done}/{self.items_total} items "
